@@ -73,3 +73,21 @@ func itoa(v int64) string {
 	}
 	return string(b)
 }
+
+// RuneSet internals (serialization, inclusion)
+
+func VerifRuneSetSerialize(rs RuneSet) []byte { return rs.serialize() }
+
+func VerifRuneSetDeserialize(data []byte) (RuneSet, int, error) {
+	var rs RuneSet
+	n, err := rs.deserializeFrom(data)
+	return rs, n, err
+}
+
+func VerifRuneSetIncludes(a, b RuneSet) bool { return a.includes(b) }
+
+func VerifScriptSetRoundTrip(ss ScriptSet) (ScriptSet, error) {
+	var out ScriptSet
+	_, err := out.deserializeFrom(ss.serialize())
+	return out, err
+}
